@@ -398,7 +398,31 @@ def classes():
             self._rec("market_after", market=market, mtime=market.get_time(),
                       mtimes=[m.get_time() for m in simulator.markets])
 
+    def retry_of(base):
+        """the built-in event, set up the way a user script does it after a typo: the first attempt (settings with
+        one flaw, refused by design) and then the corrected settings go to the same object."""
+
+        class Retry(base):
+            def setup(self, settings, *args, **kwargs):
+                first = settings.get("firstAttempt")
+                good = {k: v for k, v in settings.items() if k != "firstAttempt"}
+                if first is not None:
+                    try:
+                        base.setup(self, first, *args, **kwargs)
+                        taps.emit("first_attempt", event=self, refused=False, exc=None)
+                    except Exception as e:  # noqa
+                        taps.emit("first_attempt", event=self, refused=True, exc=e)
+                return base.setup(self, good, *args, **kwargs)
+
+        Retry.__name__ = Retry.__qualname__ = "Retry" + base.__name__
+        return Retry
+
+    from pams.events import FundamentalPriceShock, OrderMistakeShock, PriceLimitRule, TradingHaltRule
+
+    retries = {"Retry" + b.__name__: retry_of(b)
+               for b in (FundamentalPriceShock, OrderMistakeShock, PriceLimitRule, TradingHaltRule)}
     _classes = {
+        **retries,
         "ScriptAgent": ScriptAgent,
         "ScriptHFTAgent": ScriptHFTAgent,
         "RecordingLogger": RecordingLogger,
@@ -426,6 +450,7 @@ class RunOut:
         self.callbacks = []   # (agent_id, kind, log, holdings)
         self.consults = []    # consult_ret events
         self.phase = "init"
+        self.first_attempts = []  # (event name, refused?, exception) of events set up twice
 
 
 def install_runner_taps():
@@ -484,6 +509,9 @@ def run_runner_case(case, sinks=(), with_logger=True, extra_classes=(), settings
                 for a in sim.agents:
                     a.agent_id = n - 1 - a.agent_id
                 sim.id2agent = {a.agent_id: a for a in sim.agents}
+        elif k == "first_attempt":
+            out.first_attempts.append((ev["event"].name, ev["refused"], repr(ev["exc"])))
+            taps.hits["event_set_up_again_after_%s_first_attempt" % ("refused" if ev["refused"] else "ACCEPTED")] += 1
         elif k == "runner_run_call":
             out.phase = "running"
         elif k == "runner_run_ret":
@@ -500,8 +528,12 @@ def run_runner_case(case, sinks=(), with_logger=True, extra_classes=(), settings
             runner = SequentialRunner(settings=settings, prng=random.Random(case["seed"]), logger=out.logger)
             out.runner = runner
             out.simulator = runner.simulator
+            for v in settings.values() if settings_obj is None else ():
+                if isinstance(v, dict) and "firstAttempt" in v and not str(v.get("class", "")).startswith("Retry"):
+                    v["class"] = "Retry" + v["class"]
             for c in (cls["ScriptAgent"], cls["ScriptHFTAgent"], cls["ProbeEvent"], cls["DepthMarket"],
-                      cls["FalsyScriptAgent"]) + tuple(extra_classes):
+                      cls["FalsyScriptAgent"]) + tuple(v for k, v in cls.items() if k.startswith("Retry")) \
+                    + tuple(extra_classes):
                 runner.class_register(c)
             buf = io.StringIO()
             with contextlib.redirect_stdout(buf):
@@ -802,10 +834,56 @@ def add_builtin_events(rng, cfg, which=None, sessions=None, p_each=0.5):
             raise ValueError(cls)
         if rng.random() < 0.1:
             e["enabled"] = False
+        if rng.random() < 0.15:
+            e["firstAttempt"] = flawed_settings(rng, e)
         cfg[name] = e
         sess[si].setdefault("events", []).append(name)
         added.append(name)
     return added
+
+
+def flawed_settings(rng, e):
+    """settings of a built-in event with one flaw that its setup refuses by design; everything the flawed call may
+    already have taken over is also in the corrected settings."""
+    bad = {k: copy.deepcopy(v) for k, v in e.items() if k != "firstAttempt"}
+    cls = e["class"]
+    if cls in ("PriceLimitRule", "TradingHaltRule"):
+        flaws = ["rate_int", "rate_missing", "unknown_market_last"]
+        if cls == "TradingHaltRule":
+            flaws += ["length_missing", "length_float"]
+    elif cls == "FundamentalPriceShock":
+        flaws = ["rate_missing", "window_float"]
+    else:
+        flaws = ["ttl_missing", "volume_float", "rate_int"]
+    f = rng.choice(flaws)
+    if f == "rate_int":
+        bad["triggerChangeRate" if "Rule" in cls else "priceChangeRate"] = 1
+    elif f == "rate_missing":
+        bad.pop("triggerChangeRate" if "Rule" in cls else "priceChangeRate", None)
+    elif f == "unknown_market_last":
+        bad["targetMarkets"] = list(bad["targetMarkets"]) + ["no-such-market"]
+    elif f == "length_missing":
+        bad.pop("haltingTimeLength", None)
+    elif f == "length_float":
+        bad["haltingTimeLength"] = float(bad["haltingTimeLength"]) + 0.5
+    elif f == "window_float":
+        bad["shockTimeLength"] = 1.5
+    elif f == "ttl_missing":
+        bad.pop("orderTimeLength", None)
+    elif f == "volume_float":
+        bad["orderVolume"] = float(bad["orderVolume"]) + 0.5
+    return bad
+
+
+def add_first_attempts(rng, cfg, p=0.15):
+    """mark some built-in events of the configuration as 'set up twice: refused first attempt, then corrected'."""
+    n = 0
+    for name, v in cfg.items():
+        if isinstance(v, dict) and v.get("class") in ("PriceLimitRule", "TradingHaltRule", "FundamentalPriceShock",
+                                                      "OrderMistakeShock") and rng.random() < p:
+            v["firstAttempt"] = flawed_settings(rng, v)
+            n += 1
+    return n
 
 
 HOOK_TYPES = [("order", True), ("order", False), ("cancel", True), ("cancel", False), ("execution", False),
